@@ -79,7 +79,9 @@ func (w *world) write(m *pgModel) {
 	m.touched = true
 }
 
-var opNames = []string{"new", "fetch", "write", "unpin", "flush", "flushall", "dealloc-wait", "dealloc-nowait"}
+var opNames = []string{"new", "fetch", "write", "unpin", "flush", "flushall", "dealloc-wait", "dealloc-nowait", "dealloc-nowait-pinned"}
+
+var menu8 = []int{0, 1, 2, 3, 4, 5, 6, 7}
 
 func (w *world) step(allowCleanNew bool) { w.stepOf(allowCleanNew, nil) }
 
@@ -87,7 +89,7 @@ func (w *world) step(allowCleanNew bool) { w.stepOf(allowCleanNew, nil) }
 func (w *world) stepOf(allowCleanNew bool, menu []int) {
 	op := 0
 	if menu == nil {
-		op = vf.Choose(8)
+		op = vf.Choose(9)
 	} else {
 		op = menu[vf.Choose(len(menu))]
 	}
@@ -98,7 +100,7 @@ func (w *world) stepOf(allowCleanNew bool, menu []int) {
 		pg := w.bpm.NewPage()
 		vf.Assert(pg != nil, "NewPage succeeds while an unpinned frame exists")
 		for _, o := range w.pages {
-			if o.alive {
+			if o.alive || o.pins > 0 {
 				vf.Assert(o.id != pg.GetPageID(), "a new page id is never one that is still in use")
 			}
 			if o.pins > 0 {
@@ -134,7 +136,11 @@ func (w *world) stepOf(allowCleanNew bool, menu []int) {
 		w.write(m)
 		vf.Cover("c13.write")
 	case 3: // unpin
-		m := w.pick(func(p *pgModel) bool { return p.alive && p.pins > 0 })
+		m := w.pick(func(p *pgModel) bool { return p.pins > 0 })
+		if !m.alive {
+			// deallocated while pinned: the holder's frame is still its own until it lets go
+			w.checkContent(m.handle, m, "a pinned page keeps its bytes until it is released, deallocated or not")
+		}
 		dirty := m.touched || vf.Choose(2) == 1
 		if m.fresh && !allowCleanNew {
 			dirty = true // a page that never reached the disk is released dirty (what every caller in the repo does)
@@ -169,13 +175,22 @@ func (w *world) stepOf(allowCleanNew bool, menu []int) {
 		w.bpm.DeallocatePage(m.id, true)
 		m.alive = false
 		vf.Cover("c13.dealloc.nowait")
+	case 8: // DeallocatePage(p, true) while a user still holds the page: the id must stay out of circulation until the holder lets go
+		m := w.pick(func(p *pgModel) bool { return p.alive && p.pins > 0 })
+		w.bpm.DeallocatePage(m.id, true)
+		m.alive = false
+		vf.Cover("c13.dealloc.nowait-pinned")
 	}
 }
 
 func history(pool, k int, virtual bool, allowCleanNew bool) {
 	w := newWorld(pool, virtual)
 	for i := 0; i < k; i++ {
-		w.step(allowCleanNew)
+		if k <= 5 {
+			w.step(allowCleanNew) // all nine operations
+		} else {
+			w.stepOf(allowCleanNew, menu8) // longer histories: without deallocation of pinned pages
+		}
 	}
 	// final audit: every live page still reads back its latest bytes
 	for _, m := range w.pages {
